@@ -27,7 +27,7 @@ import (
 
 var oddNames = []string{
 	"plain", "sp ace", "quote\"d", "back\\slash", "new\nline", "tab\there", "\xff\xfe-not-utf8", "uni-ü- -sep", "'single'",
-	"glob*?[x]", ".hidden", "-dash", "trailing ", "\x01\x02ctl", "\xc3\x28bad-seq", "emoji-\U0001F600", "dollar$var", "percent%41",
+	"glob*?[x]", ".hidden", "-dash", "R&D.bin", "a<b>c", "amp&lt;", "trailing ", "\x01\x02ctl", "\xc3\x28bad-seq", "emoji-\U0001F600", "dollar$var", "percent%41",
 }
 
 var oddTargets = []string{"../target", "/abs/target", "sp ace", "\xff\xfe-raw-bytes", "uni- ", "a\"b\\c", "x"}
